@@ -85,7 +85,7 @@ M = {
     "bp_debug_statement_form": (MO, """                    f.debug_struct(stringify!(#struct_name))
                         #(#debug_fields)*
                         .finish()""", """                    let mut d = f.debug_struct(stringify!(#struct_name));
-                    d #(#debug_fields)* ;
+                    let _ = &mut d #(#debug_fields)* ;
                     d.finish()""", [], True),
     "bp_xor_setter": (CG, "(self.raw_value & !(((#one << #number_of_bits) - #one) << #lowest_bit)) | ((#argument_converted as #internal_base_data_type) << #lowest_bit)",
                       "self.raw_value ^ ((self.raw_value ^ ((#argument_converted as #internal_base_data_type) << #lowest_bit)) & (((#one << #number_of_bits) - #one) << #lowest_bit))", [], True),
